@@ -14,9 +14,9 @@ def load_prop(prop):
     return importlib.import_module("vf.props." + prop)
 
 
-def make_env(mod, prop, cfg):
+def make_env(mod, prop, cfg, libpath=None):
     from .lib import Lib
-    lib = Lib(cfg) if getattr(mod, "NEEDS_LIB", True) else None
+    lib = Lib(cfg, path=libpath if libpath and os.path.exists(libpath) else None) if getattr(mod, "NEEDS_LIB", True) else None
     env = core.Env(lib, cfg, prop, core.known_open_for(prop))
     return env
 
@@ -25,14 +25,14 @@ def main():
     spec = json.load(open(sys.argv[1]))
     prop = spec["prop"]
     mod = load_prop(prop)
-    tests = {t.name: t for t in mod.TESTS}
+    tests = {t.name: t for t in getattr(mod, "TESTS", [])}
     out = spec["out"]
     journal = open(spec["journal"], "w") if spec.get("journal") else None
     stats = Stats()
     result = {"ok": True, "failure": None, "error": None}
     t0 = time.time()
     try:
-        env = make_env(mod, prop, spec["cfg"])
+        env = make_env(mod, prop, spec["cfg"], spec.get("libpath"))
         env.tier = spec.get("tier", "quick")
         env.worker = spec.get("worker", 0)
         env.nworkers = spec.get("nworkers", 1)
